@@ -158,7 +158,7 @@ PROPS["C06"] = {
     "modules": ["C06", "C06b", "C06c"],
     "families": ["OF"], "ops": "api,apix,enc,prog,embed,embedw,rtrip,rtparse,rtw", "gen_deps": [],
     "rule": ENC_RULE, "trivial_outputs": ["panic", "err"],
-    "level_text": "Theorems: fill_exact / fill_length — the make(Len())+copy idiom returns exactly Len() bytes and, when the pieces fit, their concatenation plus zero padding (the general lemma every container theorem instantiates); all 30 match-payload kinds: size = encoding length and neither call modifies the value; match field and match: encoding length = reported size for any content, match size multiple of 8. Oracle: reported size before and after encoding = bytes produced, on every API-built value of every kind. Container theorems for actions / instructions / messages are pending (decided by oracle + correspondence).",
+    "level_text": "Theorems: fill_exact / fill_length — the make(Len())+copy idiom returns exactly Len() bytes and, when the pieces fit, their concatenation plus zero padding (the general lemma every container theorem instantiates); all 30 match-payload kinds: size = encoding length and neither call modifies the value; match field and match: encoding length = reported size for any content, match size multiple of 8. Oracle: reported size before and after encoding = bytes produced, on every API-built value of every kind. C06b (≈ 100 theorems): the same for every OpenFlow action, instruction, bucket and message kind incl. the containers (children embedded intact). C06c (≈ 85 theorems): size = bytes for EVERY value of every packet kind (VLAN, Ethernet, ARP, IPv4, ICMP, UDP, TCP, IPv6 and its extension headers, IGMP, DHCP, LLDP) through the payload dispatch at every depth, and children-intact for every container under its exact consistency condition (IHL·4 = 20 + |options|, 8·(HEL+1) = 2 + Σ option sizes, …) with a concrete witness that each condition is necessary. Oracles also on the values the decoders build (rtrip / rtparse / rtw) and on packet headers (embed / embedw).",
     "level_note": OF_NOTE,
     "assumptions": COMMON_ASSUMPTIONS,
 }
@@ -188,13 +188,13 @@ PROPS["C08"] = {
 }
 
 PROPS["C09"] = {
-    "families": ["OF"], "ops": "pk,rtrip,rtx,dec", "gen_deps": ["protocol."], "modules": ["C09", "C09b"],
+    "families": ["OF"], "ops": "pk,pkrw,rtrip,rtx,dec", "gen_deps": ["protocol."], "modules": ["C09", "C09b"],
     "rule": "pk: packet headers written by an independent encoder (harness/cmd/ofvrun/of_switch.go, from the RFC layouts): VLAN tag over all (pcp, dei) and boundary/random vids, "
             "TCP data offset x 6 code bits, IPv6 fragment offset/M, IGMPv3 S/QRV, IGMPv1/2, IGMPv3 reports with group records and aux words, routing and hop-by-hop headers whose options fill "
             "them exactly, ICMP, ARP, whole Ethernet frames (tagged/untagged; IPv4/ICMP with all sub-byte fields, IPv4/UDP, ARP, IPv6 with hop-by-hop / fragment chains and ICMPv6 / UDP, "
             "unknown ethertype), each with exact and spare capacity. Non-trivial = the decoder returned a value.",
     "trivial_outputs": ["err", "panic", "spin", "-"],
-    "level_text": "Kernel-checked theorems (Props/C09.lean): lane theorems — for ALL in-range field values unpack(pack) returns each field (VLAN PCP/DEI/VID, IPv4 version/IHL, DSCP/ECN, flags/fragment offset, IPv6 version/class/flow label across its words, TCP data offset and code bits, fragment offset/M flag, IGMPv3 S/QRV) by arithmetic over UIntN, not enumeration; round-trip theorems for the leaf header kinds (decode(encode v ++ tail) = v, size = bytes); demux theorems: the payload decoder is chosen by the ethertype after an optional tag, the IPv4 protocol byte, the IPv6 next-header chain. Oracle on the implementation: every value an independent encoder wrote is found in the decoded header, the reported size equals the bytes consumed, the re-encoding reproduces the input.",
+    "level_text": "Kernel-checked theorems (Props/C09.lean): lane theorems — for ALL in-range field values unpack(pack) returns each field (VLAN PCP/DEI/VID, IPv4 version/IHL, DSCP/ECN, flags/fragment offset, IPv6 version/class/flow label across its words, TCP data offset and code bits, fragment offset/M flag, IGMPv3 S/QRV) by arithmetic over UIntN, not enumeration; round-trip theorems for the leaf header kinds (decode(encode v ++ tail) = v, size = bytes); demux theorems: the payload decoder is chosen by the ethertype after an optional tag, the IPv4 protocol byte, the IPv6 next-header chain. Oracle on the implementation: every value an independent encoder wrote is found in the decoded header, the reported size equals the bytes consumed, the re-encoding reproduces the input. C09b (50 theorems): DHCP (option, option list incl. pad options, whole message incl. 16-byte v4-mapped addresses) and LLDP (TLV lanes, the three TLVs, the whole frame) round trips for every well-formed value, with the precise limits (an explicit end option is dropped; hardware length above 16 rejected; a 512-byte chassis id does not fit the 9-bit length). pkrw: BOOTP/DHCP messages written by an independent encoder (with pad options and trailing BOOTP padding) are decoded with Write, compared field by field and re-encoded with Read.",
     "level_note": OF_NOTE + " TCP.Code is modelled as the library defines it (6 bits). DHCP / LLDP use Read/Write methods rather than Marshal/Unmarshal and are covered by the correspondence run (prog op) and C08 only.",
     "assumptions": COMMON_ASSUMPTIONS + ["RFC 791/2460/793/3376/826, IEEE 802.1Q layouts transcribed from memory in the independent encoder"],
 }
